@@ -260,6 +260,59 @@ func burst(r *hx.Rand, n int) Session {
 	return s
 }
 
+// slowReader: the client stops reading while a subscription with large events is fed until the
+// server side stalls (full kernel buffers, blocked write loop, full 100-slot buffer, blocked
+// subscription goroutine); frames sent during the stall meet a full buffer — the read loop blocks in
+// sendMessage for their answers. Then the client reads again and everything due must arrive; or the
+// connection is ended while stalled.
+func slowReader(r *hx.Rand, k int) Session {
+	proto := []string{"tws", "ws"}[k%2]
+	s := Session{Proto: proto, Ending: endings[(k/3)%3], Await: true}
+	s.SlowStop = s.Ending == "sclose" && r.Bool()
+	add := func(st ...Step) { s.Steps = append(s.Steps, st...) }
+	add(Step{Op: "frame", F: "init-ok"}, Step{Op: "frame", F: "start", ID: 1, Kind: "subscription", Big: 256})
+	second := r.Bool()
+	if second {
+		add(Step{Op: "frame", F: "start", ID: 2, Kind: "subscription"}, Step{Op: "ev", Src: 1})
+	}
+	add(Step{Op: "sync"}, Step{Op: "flood", Src: 0})
+	// while the server is stalled
+	id := 10
+	for i, n := 0, r.Range(1, 5); i < n; i++ {
+		switch r.Intn(8) {
+		case 0, 1, 2:
+			add(Step{Op: "frame", F: "ping", Variant: r.Intn(2)})
+		case 3:
+			add(Step{Op: "frame", F: "start", ID: id, Kind: hx.Pick(r, []string{"query", "mutation", "invalid", "subfail"})})
+			id++
+		case 4:
+			add(Step{Op: "frame", F: "stop", ID: hx.Pick(r, []int{1, 1, 2, 9})})
+		case 5:
+			add(Step{Op: "frame", F: "start", ID: id, Kind: "subscription"})
+			id++
+		case 6:
+			add(Step{Op: "frame", F: "pong"})
+		case 7:
+			add(Step{Op: "frame", F: "start", ID: 1, Kind: "subscription"}) // duplicate of the running one: ignored
+		}
+	}
+	if proto == "tws" && k%4 != 3 {
+		add(Step{Op: "frame", F: "ping"}) // most graphql-transport-ws sessions ping at the full buffer
+	}
+	add(Step{Op: "frame", F: "start", ID: id, Kind: "query"}) // a barrier: answered after everything before it
+	if k%3 == 2 {
+		return s // the connection ends while the server is stalled
+	}
+	add(Step{Op: "resume"})
+	if second && r.Bool() {
+		add(Step{Op: "ev", Src: 1}, Step{Op: "frame", F: "ping"}, Step{Op: "sync"})
+	}
+	if r.Bool() {
+		add(Step{Op: "ev", Src: 0}, Step{Op: "frame", F: "stop", ID: 1}, Step{Op: "sync"})
+	}
+	return s
+}
+
 func generate(h *harness) {
 	run := h.run
 	batchSize := 96
@@ -306,6 +359,15 @@ func generate(h *harness) {
 	for i := 0; i < run.Scale(12, 120); i++ {
 		push(burst(run.Rand.Fork(), run.Rand.Range(60, 260)))
 	}
+	flush()
+	// slow reader: few at a time, each holds ~30 MB in flight
+	for i, n := 0, run.Scale(24, 240); i < n && !h.stop; i++ {
+		pending = append(pending, slowReader(run.Rand.Fork(), i))
+		if len(pending) >= 8 {
+			flush()
+		}
+	}
+	flush()
 	for i := 0; i < run.Scale(4000, 40000); i++ {
 		push(Session{Proto: hx.Pick(run.Rand, []string{"ws", "tws"}), Ending: "sclose", Early: true})
 	}
